@@ -178,6 +178,23 @@ def gen(chk):
             for init, ini in (("(0)", 0), ("(100)", 100)):
                 cases.append(("reduce/%s$/prop" % add, "r := %s%s$%s+\nr" % (recv, add, init), [], ("val", str(res + ini))))
                 cases.append(("reduce/%s$/litplus" % add, "r := %s%s$%s{|acc, x| acc + x}\nr" % (recv, add, init), [], ("val", str(res + ini))))
+    # receivers of one Go type but different prototypes in one chain: each element is looked up along ITS OWN chain, in all three forms
+    het = [("xs := [1, Int.bear({S: m{\"five\"}}).new(5), 2]", "S", '["1", "five", "2"]'),
+           ('ys := ["a", Str.bear({len: m{99}}).new("bb"), "c"]', "len", "[1, 99, 1]")]
+    for pre, name, want in het:
+        var = pre.split(" ")[0]
+        for form, expr in (("prop", "%s@%s" % (var, name)), ("lit", "%s@{|x| x.%s}" % (var, name)), ("var", "f := {|x| x.%s}\nr := %s@^f" % (name, var))):
+            body = expr if form == "var" else "r := " + expr
+            cases.append(("hetero/@/%s" % form, pre + "\n" + body + "\nr", [], ("val", want)))
+    cases.append(("hetero/$/prop", "zs := [3, Int.bear({'+: m{|o| 1000}}).new(4), 5]\nr := zs$(0)+\nr", [], ("val", "12")))
+    cases.append(("hetero/$/lit", "zs := [3, Int.bear({'+: m{|o| 1000}}).new(4), 5]\nr := zs$(0){|a, x| a + x}\nr", [], ("val", "12")))
+    # a receiver that cannot be iterated: every list / reduce context raises TypeErr, the thoughtful ones capture nothing silently
+    for recv in ("BaseObj.bear({a: 1})", "{_iter: nil}"):
+        for chain in ("@{|x| x}", "~@{|x| x}", "=@{|x| x}", "&@{|x| x}", "$(0){|a, x| a}", "~$(0){|a, x| a}", "=$(0){|a, x| a}", "~$(0)+", "@S", "~@S"):
+            cases.append(("noiter/%s" % chain[:2], "r := 1.try.{|_| (%s)%s}.err.{|e| e.type._name if e != nil}\nr" % (recv, chain), [], ("val", '"TypeErr"')))
+    # the chain argument's own entries win over collected results with the same key
+    cases.append(("digest/obj-overlap", 'r := ["a", "b"]@({a: 0}){|k| [k, k.uc]}\nr', [], ("val", '{"a": 0, "b": "B"}')))
+    cases.append(("digest/map-overlap", "r := [1, 2]@(%{1: 'x}){|k| [k, k * 2]}\nr", [], ("val", '%{1: "x", 2: 4}')))
     # digest into other containers
     cases.append(("digest/obj", 'r := [1, 2]@({z: 0}){|x| ["k" + x.S, x]}\nr', [], ("val", '{"k1": 1, "k2": 2, "z": 0}')))
     cases.append(("digest/map", 'r := [1, 2]@(%{0: 0}){|x| [x, x * 2]}\nr', [], ("val", "%{0: 0, 1: 2, 2: 4}")))
